@@ -178,6 +178,7 @@ c.requires("is_int(ghost.out)")
 c.modifies("ghost.out", "conn.sock", "conn.is_verified", "conn.proxy_is_verified", "conn._has_connected_to_proxy", "conn._response_options",
            "conn._tunnel_host", "conn._tunnel_port", "conn._tunnel_scheme")
 c.ensures("is_int(ghost.out) and implies(self.pool is not None, ghost.out == old(ghost.out) - 1)", "slot-returned-or-connection-discarded")
+c.ensures("implies(conn is not None, conn.sock is None or conn.sock is old(conn.sock))", "a-connection-is-at-most-closed-never-reopened")
 
 c = contract(f"{RESP}.drain_conn")
 c.assumed("reads the rest of the body swallowing I/O errors; the connection back-reference is released (HTTPResponse.drain_conn/_error_catcher/release_conn, verified under C01 response side)")
